@@ -10,6 +10,7 @@ PROPS = {
         "kind": "c06",
         "module": "Props.C06",
         "namespace": "Jl.C06",
+        "extra_theorem_files": [("Proofs.RowSerial", "Jl.RowSerial")],
         "rule": ("histories of row mutators over the key alphabet {'', a, ab, b, é, a.b}: every history of length "
                  "1 and 2 (thorough: 3) over a fixed op alphabet, plus random histories of length 3-60; after every "
                  "step Len, IterValues, Has, Get, GetValueAtIndex(-1..len) and the key order of MarshalJSON are "
@@ -162,7 +163,7 @@ PROPS = {
         "jl": True,
         "module": "Props.C16",
         "namespace": "Jl.C16",
-        "extra_theorem_files": [("Proofs.JsonAccept", "Jl.JsonAcc"), ("Proofs.JsonLexical", "Jl.JsonLex")],
+        "extra_theorem_files": [("Proofs.JsonAccept", "Jl.JsonAcc"), ("Proofs.JsonLexical", "Jl.JsonLex"), ("Proofs.LineAccept", "Jl.LineAccept")],
         "rule": ("~90 hand-written texts (every rejection class named by the property, truncations, trailing content, comments, BOM, NUL, "
                  "vertical tab, form feed, NBSP, 70 KB string) and, per random valid object: the object, a truncation at a random offset, a "
                  "1-3 byte mutation (insert / delete / replace from the structural alphabet plus control and non-UTF-8 bytes), trailing "
